@@ -2,7 +2,7 @@
 # Every simulation check against every behaviour-preserving refactoring in seeded/benign: all must stay silent.
 cd "$(dirname "$0")/.." || exit 2
 bad=0; n=0
-for d in seeded/benign/*.diff seeded/benign2/*.diff; do
+for d in seeded/benign/*.diff seeded/benign2/*.diff seeded/benign3/*.diff; do
   out=$(LRUSIM_NO_MIRI=1 tools/try_mutant.sh "$PWD/$d" C01 C02 C03 C04 C05 C06 C07 C10 C11 C12 C13 C14 C15 C16 C17 C19 C20 2>&1)
   k=$(echo "$out" | grep -c "^== ")
   b=$(echo "$out" | grep -E "exit=[12]" | wc -l)
